@@ -115,9 +115,10 @@ def r1(R):
     handled = {}
     for x in walk_local(init.node):
         if isinstance(x, ast.If) and isinstance(x.test, ast.Compare) and \
-                isinstance(x.test.left, ast.Name) and \
-                x.test.left.id == 'reference_type' and isinstance(
-                    x.test.comparators[0], ast.Constant):
+                isinstance(x.test.left, ast.Name) and isinstance(
+                    x.test.comparators[0], ast.Constant) and isinstance(
+                        x.test.comparators[0].value, str) and len(
+                            x.test.comparators[0].value) == 1:
             tag = x.test.comparators[0].value
             arities = set()
             for y in x.body:
@@ -295,14 +296,27 @@ def r4(R):
       'references and skips exactly the list-shaped (weak / cross-database) '
       'ones', props=['C07'], min_instances=2)
 def r5(R):
-    for fn, sink in (('referencesf', 'oids'), ('get_refs', 'result')):
+    for fn in ('referencesf', 'get_refs'):
         f = R.prog.func(SER + '.' + fn)
         g, b, F = R.cfg(f, None, max_depth=0)
         R.instance(fn)
+        # the list the unpickler's persistent_load appends to, the loop
+        # over it, and the list the function returns -- by role, whatever
+        # they are called
+        collected = {
+            a.value.id for c in walk_local(f.node)
+            if isinstance(c, ast.Call) for a in c.args
+            if isinstance(a, ast.Attribute) and a.attr == 'append' and
+            isinstance(a.value, ast.Name)}
+        sink = None
+        for r_ in walk_local(f.node):
+            if isinstance(r_, ast.Return) and isinstance(r_.value, ast.Name):
+                sink = r_.value.id
+        R.require(sink is not None, '%s does not return a list' % fn)
         loopvar = None
         for l in walk_local(f.node):
             if isinstance(l, ast.For) and isinstance(l.target, ast.Name) and \
-                    isinstance(l.iter, ast.Name) and l.iter.id == 'refs':
+                    isinstance(l.iter, ast.Name) and l.iter.id in collected:
                 loopvar = l.target.id
         if loopvar is None:
             R.violation((f.module.relpath, f.qualname, 'reference loop'),
